@@ -35,7 +35,7 @@ def pieces():
     global _CUSTOM
     from pydsol.core.pubsub import EventType
     if _CUSTOM is None:
-        _CUSTOM = EventType("C11_CUSTOMVAL")
+        _CUSTOM = (EventType("C11_CUSTOMVAL"), EventType("C11_CUSTOMVAL_B"))
     return _CUSTOM
 
 
@@ -78,7 +78,7 @@ def classes():
     from pydsol.core.pubsub import EventListener, EventProducer
     from pydsol.core.interfaces import StatEvents
     from pydsol.core import statistics as S
-    CUSTOM = pieces()
+    CUSTOM, CUSTOM2 = pieces()
     GET = {"N_EVENT": lambda s: s.n(), "COUNT_EVENT": lambda s: s.count(),
            "MIN_EVENT": lambda s: s.min(), "MAX_EVENT": lambda s: s.max(),
            "SUM_EVENT": lambda s: s.sum(), "MEAN_EVENT": lambda s: s.mean(),
@@ -142,17 +142,24 @@ def classes():
                   "wtally": StatEvents.WEIGHT_DATA_EVENT,
                   "pers": StatEvents.TIMESTAMP_DATA_EVENT}[self.kind]
             if self.via == "direct":
-                self.st = K("k", "k", sim)
-                self.st2 = K("k2", "k2", sim)
+                # (two statistics of a kind carry the same descriptive name:
+                # they are told apart by their keys)
+                self.st = K("k", "same name", sim)
+                self.st2 = K("k2", "same name", sim)
             elif self.via == "default":
-                self.st = K("k", "k", sim, producer=self.p, event_type=et)
-                self.st2 = K("k2", "k2", sim, producer=self.p, event_type=et)
+                self.st = K("k", "same name", sim, producer=self.p,
+                            event_type=et)
+                self.st2 = K("k2", "same name", sim, producer=self.p,
+                             event_type=et)
                 self.et = et
             else:
-                self.st = K("k", "k", sim)
+                # each statistic listens to two custom event types
+                self.st = K("k", "same name", sim)
                 self.st.listen_to(self.p, CUSTOM)
-                self.st2 = K("k2", "k2", sim)
+                self.st.listen_to(self.p, CUSTOM2)
+                self.st2 = K("k2", "same name", sim)
                 self.st2.listen_to(self.p, CUSTOM)
+                self.st2.listen_to(self.p, CUSTOM2)
                 self.et = CUSTOM
             self.sub = Sub(self.st, self.bad)
             for nm in dir(StatEvents):
@@ -183,16 +190,19 @@ def classes():
                         else:
                             st.register(t, v)
                 else:
+                    et_k = self.et
+                    if self.et is CUSTOM and k % 2 == 0:
+                        et_k = CUSTOM2       # alternate the two custom types
                     if self.kind == "counter":
-                        self.p.fire(self.et, int(v))
+                        self.p.fire(et_k, int(v))
                     elif self.kind == "tally":
-                        self.p.fire(self.et, v)
+                        self.p.fire(et_k, v)
                     elif self.kind == "wtally":
-                        self.p.fire(self.et, (v - 1.0, v))
+                        self.p.fire(et_k, (v - 1.0, v))
                     elif self.et is CUSTOM:
-                        self.p.fire(self.et, v)
+                        self.p.fire(et_k, v)
                     else:
-                        self.p.fire_timed(t, self.et, v)
+                        self.p.fire_timed(t, et_k, v)
             except Exception as ex:  # noqa
                 self.err.append("%s: %s" % (type(ex).__name__, ex))
             if self.stop_at == k:
